@@ -308,7 +308,10 @@ def later_field_part(ctx):
     while len(frames) < want and tries < want * 6:
         tries += 1
         v = rnd.choice([12, 13, 14, 14, 20, 20])
-        x = sg.valid(v=v, sure=rnd.random() < 0.3)
+        # every operation gets its share (the generator's own mix has a key pair request under 2.0 once in a thousand)
+        import gen_engine
+        op = rnd.choice(gen_engine.OPS_ALL) if rnd.random() < 0.6 else None
+        x = sg.valid(v=v, op=op, sure=(op is None and rnd.random() < 0.3))
         if not x or len(x[1]["ops"]) != 1 or len(x[0]) > 4000:
             continue
         fr = x[0]
